@@ -157,7 +157,7 @@ def branch_templates(ctx, rule):
             # the helper interpreted on the same (url class x protocol spelling) cells, extra spellings of each class included
             from ..microeval import Raised
             out = []
-            extra = {"no-protocol": ["lemonde.fr/login?next=https://abo.lemonde.fr/", "a.com"], "protocol-relative": ["//a.com", "///a.com/x"], "has-protocol": ["HTTP://a.com/x", "https://a.com/?u=b.org", "git://a.com/x", "P://a.com/x", "feed://www.a.com/rss"]}
+            extra = {"no-protocol": ["lemonde.fr/login?next=https://abo.lemonde.fr/", "a.com"], "protocol-relative": ["//a.com", "///a.com/x"], "has-protocol": ["HTTP://a.com/x", "https://a.com/?u=b.org", "git://a.com/x", "P://a.com/x", "feed://www.a.com/rss", "://a.com/x"]}
             for cname, m, r, rep in CLASSES:
                 for u in [rep] + extra[cname]:
                     for proto in (("p", "p:", "p://") if name != "strip_protocol" else (None,)):
@@ -168,7 +168,7 @@ def branch_templates(ctx, rule):
                         if u == rep:
                             exp = EXPECT[name][cname]
                         else:
-                            tail = re.sub(r"^(?:[A-Za-z][A-Za-z0-9+.-]*:)?//", "", u) if cname != "no-protocol" else u
+                            tail = re.sub(r"^(?:[A-Za-z]*:)?//", "", u) if cname != "no-protocol" else u
                             exp = {"ensure_protocol": u if cname == "has-protocol" else "p://" + tail, "force_protocol": "p://" + tail, "strip_protocol": tail}[name]
                         out.append(("%s(%r%s) -> %r" % (name, u, "" if proto is None else ", %r" % proto, got), got == exp))
             return out
@@ -256,6 +256,19 @@ def builder(ctx, rule):
         (("http://a.com",), {"fragment": "f"}, "http://a.com#f"),
         (("http://a.com",), {"path": "x", "ext": ".json"}, "http://a.com/x.json"),
     ]
+    # every combination of the presence classes: each part is written whether or not the others are
+    for a_name, a_val, a_out in (("no-args", None, ""), ("empty-args", {}, ""), ("nothing-retained", {"a": None, "b": False}, ""), ("one-arg", {"q": "1"}, "?q=1")):
+        for p_val, p_out in ((None, ""), ("x", "/x")):
+            for f_val, f_out in ((None, ""), ("f", "#f")):
+                kw = {}
+                if a_val is not None:
+                    kw["args"] = a_val
+                if p_val is not None:
+                    kw["path"] = p_val
+                if f_val is not None:
+                    kw["fragment"] = f_val
+                if kw and not any(c[1] == kw for c in fcases):
+                    fcases.append((("http://a.com",), kw, "http://a.com" + p_out + a_out + f_out))
     for args, kw, exp in fcases:
         try:
             got = run_function(repo, fref, list(args), dict(kw))
